@@ -350,6 +350,27 @@ func e2eRefusals(c *e2eCtx) error {
 		{"valid-clean-after-track", []string{"clean"}, func(s *scenario, r *rand.Rand) bool {
 			return proj.RunGoat(c.goat, s.dir, nil, "track").Exit == 0
 		}, false, true},
+		{"valid-patch-with-unusual-package-name", []string{"patch"}, func(s *scenario, r *rand.Rand) bool {
+			// the configuration layer accepts any package name; whatever the later stages think of
+			// it, a failure must not come after the sources were rewritten
+			if run := proj.RunGoat(c.goat, s.dir, nil, "track"); run.Exit != 0 {
+				return false
+			}
+			n := 0
+			for rel := range s.newTree {
+				if !strings.HasSuffix(rel, ".go") || n >= 1 {
+					continue
+				}
+				b, err := os.ReadFile(filepath.Join(s.dir, rel))
+				if err != nil || !strings.Contains(string(b), "// +goat:generate") {
+					continue
+				}
+				os.WriteFile(filepath.Join(s.dir, rel), []byte(strings.Replace(string(b), "// +goat:generate", "// +goat:delete", 1)), 0644)
+				n++
+			}
+			writeCfg(s, func(c *proj.Config) { c.PkgName = "goat-cov" })
+			return n > 0
+		}, false, true},
 		{"valid-init-force", []string{"init", "--force", "--app-name", "x y", "--granularity", "func"}, func(s *scenario, r *rand.Rand) bool { return true }, false, true},
 	}
 	// what the Lean plan (Cmd.plan) is told about each scenario: flag overrides of a valid
